@@ -1,5 +1,272 @@
 """self-validation battery for C13 (see wzsa/selftest.py)."""
 H = "http.py"
+S = "sansio/http.py"
+T = "test.py"
+R = "sansio/response.py"
+
+# ---- anchors in today's tree ------------------------------------------------
+LOOP_HEAD = '    for k, v in (\n        ("Domain", domain),'
+LOOP_TAIL = '    ):\n        if v is None or v is False:\n            continue\n\n        if v is True:\n            buf.append(k)\n            continue\n\n        buf.append(f"{k}={v}")\n\n    rv = "; ".join(buf)\n'
+PAIR = """    buf = [f"{key.encode().decode('latin1')}={value}"]\n"""
+QUOTE = (
+    "    if not _cookie_no_quote_re.fullmatch(value):\n"
+    "        # Work with bytes here, since a UTF-8 character could be multiple bytes.\n"
+    "        value = _cookie_slash_re.sub(\n"
+    "            lambda m: _cookie_slash_map[m.group()], value.encode()\n"
+    '        ).decode("ascii")\n'
+    "        value = f'\"{value}\"'\n"
+)
+READER = (
+    "    for ck, cv in _cookie_re.findall(cookie):\n"
+    "        ck = ck.strip()\n"
+    "        cv = cv.strip()\n"
+    "\n"
+    "        if not ck:\n"
+    "            continue\n"
+    "\n"
+    "        if len(cv) >= 2 and cv[0] == cv[-1] == '\"':\n"
+    "            # Work with bytes here, since a UTF-8 character could be multiple bytes.\n"
+    "            cv = _cookie_unslash_re.sub(\n"
+    "                _cookie_unslash_replace, cv[1:-1].encode()\n"
+    '            ).decode(errors="replace")\n'
+    "\n"
+    "        out.append((ck, cv))\n"
+    "\n"
+    "    return cls(out)\n"
+)
+CALLBACK = '    v = m.group(1)\n\n    if len(v) == 1:\n        return v\n\n    return int(v, 8).to_bytes(1, "big")\n'
+CLIENT = '        header, _, parameters_str = header.partition(";")\n        key, _, value = header.partition("=")\n        decoded_key, decoded_value = next(parse_cookie(header).items())  # type: ignore[call-overload]\n'
+SETCOOKIE = (
+    "        self.headers.add(\n"
+    '            "Set-Cookie",\n'
+    "            dump_cookie(\n"
+    "                key,\n"
+    "                value=value,\n"
+    "                max_age=max_age,\n"
+    "                expires=expires,\n"
+    "                path=path,\n"
+    "                domain=domain,\n"
+    "                secure=secure,\n"
+    "                httponly=httponly,\n"
+    "                max_size=self.max_cookie_size,\n"
+    "                samesite=samesite,\n"
+    "                partitioned=partitioned,\n"
+    "            ),\n"
+    "        )\n"
+)
+SANITISE_PATH = "    if path is not None:\n        # safe = https://url.spec.whatwg.org/#url-path-segment-string\n        # as well as percent for things that are already quoted\n        # excluding semicolon since it's part of the header syntax\n        path = quote(path, safe=\"%!$&'()*+,/:=@\")\n"
+SANITISE_DOMAIN = '    if domain:\n        domain = domain.partition(":")[0].lstrip(".").encode("idna").decode("ascii")\n'
+ENVIRON = '    if isinstance(header, dict):\n        cookie = header.get("HTTP_COOKIE")\n    else:\n        cookie = header\n'
+
+
+# ---- neutral shapes (each is used by a twin, and by a mutant that breaks the property in that shape) ------------
+def comprehension(cond: str) -> list:
+    """the attribute loop as a generator fed to list.extend"""
+    return [
+        (H, LOOP_HEAD, '    buf.extend(\n        k if v is True else f"{k}={v}"\n        for k, v in (\n        ("Domain", domain),'),
+        (H, LOOP_TAIL, f'    )\n        if {cond}\n    )\n\n    rv = "; ".join(buf)\n'),
+    ]
+
+
+def accumulate(sep: str) -> list:
+    """the header accumulated as a string, no list, no join"""
+    return [
+        (H, PAIR, """    rv = f"{key.encode().decode('latin1')}={value}"\n"""),
+        (H, LOOP_TAIL, f'    ):\n        if v is None or v is False:\n            continue\n\n        rv += "{sep}" + (k if v is True else "%s=%s" % (k, v))\n'),
+    ]
+
+
+def attrs_local(secure_pair: str) -> list:
+    """attribute table bound to a local, str.format, list +=, the pair appended after the list was created"""
+    return [
+        (H, PAIR, """    pieces = []\n    pieces.append("{}={}".format(key.encode().decode('latin1'), value))\n"""),
+        (H, LOOP_HEAD, '    table = [\n        ["Domain", domain],'),
+        (H, '        ("Secure", secure),\n        ("HttpOnly", httponly),', secure_pair),
+        (
+            H,
+            LOOP_TAIL,
+            '    ]\n\n    for name, val in table:\n        if val is True:\n            pieces += [name]\n        elif not (val is None or val is False):\n            pieces += ["{}={}".format(name, val)]\n\n    rv = "; ".join(pieces)\n',
+        ),
+    ]
+
+
+def quote_helper(test: str) -> list:
+    """value quoting in a nested function, match object in a local compared with None, quotes added by join"""
+    return [
+        (
+            H,
+            QUOTE,
+            "    def quoted(text: str) -> str:\n"
+            "        found = _cookie_no_quote_re.fullmatch(text)\n"
+            "\n"
+            f"        if {test}:\n"
+            "            return text\n"
+            "\n"
+            "        data = text.encode()\n"
+            "        data = _cookie_slash_re.sub(lambda m: _cookie_slash_map[m[0]], data)\n"
+            "        return \"\".join(['\"', data.decode(\"ascii\"), '\"'])\n"
+            "\n"
+            "    value = quoted(value)\n",
+        )
+    ]
+
+
+def reader_helper(test: str) -> list:
+    """parser: generator of stripped pairs + list comprehension + extracted unquote helper with the negated quote test"""
+    return [
+        (
+            S,
+            "def parse_cookie(\n    cookie: str | None = None,",
+            "def _cookie_unquote(text: str) -> str:\n"
+            f"    if {test}:\n"
+            "        return text\n"
+            "\n"
+            "    data = text[1:-1].encode()\n"
+            '    return _cookie_unslash_re.sub(_cookie_unslash_replace, data).decode(errors="replace")\n'
+            "\n"
+            "\n"
+            "def parse_cookie(\n    cookie: str | None = None,",
+        ),
+        (
+            S,
+            READER,
+            "    stripped = ((ck.strip(), cv.strip()) for ck, cv in _cookie_re.findall(cookie))\n"
+            "    return cls([(name, _cookie_unquote(text)) for name, text in stripped if name])\n",
+        ),
+    ]
+
+
+def callback(expr: str) -> list:
+    """unslash callback: subscript instead of group(1), length 3 test, chr/encode instead of to_bytes"""
+    return [(S, CALLBACK, f"    digits = m[1]\n    return {expr} if len(digits) == 3 else digits\n")]
+
+
+def client_split(call: str) -> list:
+    """test client: split(';', 1) instead of partition, no rebinding of the parameter"""
+    return [
+        (
+            T,
+            CLIENT,
+            f"        pieces = header.{call}\n"
+            "        pair = pieces[0]\n"
+            '        parameters_str = pieces[1] if len(pieces) > 1 else ""\n'
+            '        key, _, value = pair.partition("=")\n'
+            "        decoded_key, decoded_value = next(parse_cookie(pair).items())  # type: ignore[call-overload]\n",
+        )
+    ]
+
+
+def set_cookie_positional(order: str) -> list:
+    """set_cookie: positional arguments, result in a local"""
+    return [
+        (
+            R,
+            SETCOOKIE,
+            f"        header_value = dump_cookie(\n            key, value, max_age, expires, path, domain, {order},\n"
+            "            max_size=self.max_cookie_size, samesite=samesite, partitioned=partitioned,\n        )\n"
+            '        self.headers.add("Set-Cookie", header_value)\n',
+        )
+    ]
+
+
+def fresh_locals(path_wired: str) -> list:
+    """sanitisers stop rebinding the parameters: conditional expressions into new locals"""
+    return [
+        (H, SANITISE_PATH, "    quoted_path = None if path is None else quote(path, safe=\"%!$&'()*+,/:=@\")\n"),
+        (H, SANITISE_DOMAIN, '    ascii_domain = domain.partition(":")[0].lstrip(".").encode("idna").decode("ascii") if domain else domain\n'),
+        (H, '        ("Domain", domain),', '        ("Domain", ascii_domain),'),
+        (H, '        ("Path", path),', f'        ("Path", {path_wired}),'),
+    ]
+
+
+BODY = '        if v is None or v is False:\n            continue\n\n        if v is True:\n            buf.append(k)\n            continue\n\n        buf.append(f"{k}={v}")\n'
+TABLE_REST = '        ("Expires", expires),\n        ("Max-Age", max_age),\n        ("Secure", secure),\n        ("HttpOnly", httponly),\n        ("Path", path),\n        ("SameSite", samesite),\n        ("Partitioned", partitioned),\n    ):'
+SAMESITE = '        samesite = samesite.title()\n\n        if samesite not in {"Strict", "Lax", "None"}:\n            raise ValueError("SameSite must be \'Strict\', \'Lax\', or \'None\'.")\n'
+
+
+def dict_items(max_age_name: str) -> list:
+    """attribute table as a dict literal iterated with .items()"""
+    return [
+        (H, LOOP_HEAD, '    for k, v in {\n        "Domain": domain,'),
+        (H, TABLE_REST, f'        "Expires": expires,\n        "{max_age_name}": max_age,\n        "Secure": secure,\n        "HttpOnly": httponly,\n        "Path": path,\n        "SameSite": samesite,\n        "Partitioned": partitioned,\n    }}.items():'),
+    ]
+
+
+def bool_first(other_test: str) -> list:
+    """loop body: isinstance(v, bool) decides flags, everything else that is not None is name=value"""
+    return [(H, BODY, f'        if isinstance(v, bool):\n            if v:\n                buf.append(k)\n        elif {other_test}:\n            buf.append(f"{{k}}={{v}}")\n')]
+
+
+def filter_join(valued: str) -> list:
+    """every attribute appends an item or None; the join filters the None items out"""
+    return [(H, BODY + '\n    rv = "; ".join(buf)\n', f'        buf.append(None if v is None or v is False else k if v is True else {valued})\n\n    rv = "; ".join(filter(None, buf))\n')]
+
+
+def samesite_table(none_value: str) -> list:
+    """SameSite normalised through a lookup table, KeyError turned into ValueError"""
+    return [(H, SAMESITE, f'        try:\n            samesite = {{"strict": "Strict", "lax": "Lax", "none": "{none_value}"}}[samesite.lower()]\n        except KeyError:\n            raise ValueError("SameSite must be \'Strict\', \'Lax\', or \'None\'.") from None\n')]
+
+
+def reader_generator(value_expr: str) -> list:
+    """parser: pair splitting and stripping extracted into a generator function"""
+    return [
+        (S, "def parse_cookie(\n    cookie: str | None = None,", f"def _iter_cookie_pairs(cookie: str) -> t.Iterator[tuple[str, str]]:\n    for ck, cv in _cookie_re.findall(cookie):\n        ck = ck.strip()\n\n        if ck:\n            yield ck, {value_expr}\n\n\ndef parse_cookie(\n    cookie: str | None = None,"),
+        (S, READER, "    for ck, cv in _iter_cookie_pairs(cookie):\n        if len(cv) >= 2 and cv[0] == cv[-1] == '\"':\n            cv = _cookie_unslash_re.sub(\n                _cookie_unslash_replace, cv[1:-1].encode()\n            ).decode(errors=\"replace\")\n\n        out.append((ck, cv))\n\n    return cls(out)\n"),
+    ]
+
+
+def reader_add(early: bool) -> list:
+    """parser: result object created first, pairs stored with .add()"""
+    ed = [(S, "    out = []\n", "    rv = cls()\n")]
+    if early:
+        ed += [(S, "        if len(cv) >= 2 and cv[0] == cv[-1] == '\"':", "        rv.add(ck, cv)\n\n        if len(cv) >= 2 and cv[0] == cv[-1] == '\"':"), (S, "        out.append((ck, cv))\n\n    return cls(out)\n", "    return rv\n")]
+    else:
+        ed += [(S, "        out.append((ck, cv))\n\n    return cls(out)\n", "        rv.add(ck, cv)\n\n    return rv\n")]
+    return ed
+
+
+def callback_table(upto: int) -> list:
+    """unslash callback: precomputed inverse table for the octal escapes, group(1) for quoted pairs"""
+    return [
+        (S, CALLBACK, "    return _cookie_unslash_map.get(m.group(), m.group(1))\n"),
+        (S, "def _cookie_unslash_replace(", f'_cookie_unslash_map = {{b"\\\\%03o" % n: bytes([n]) for n in range({upto})}}\n\n\ndef _cookie_unslash_replace('),
+    ]
+
+
+def re_functions(kind: str) -> list:
+    """module-level re functions with the compiled pattern as first argument, str(bytes, codec)"""
+    return [
+        (H, "    if not _cookie_no_quote_re.fullmatch(value):\n", f"    if re.{kind}(_cookie_no_quote_re, value) is None:\n"),
+        (H, '        value = _cookie_slash_re.sub(\n            lambda m: _cookie_slash_map[m.group()], value.encode()\n        ).decode("ascii")', '        value = str(re.sub(\n            _cookie_slash_re, lambda m: _cookie_slash_map[m.group()], bytes(value, "utf-8")\n        ), "ascii")'),
+    ]
+
+
+def public_helper(kind: str) -> list:
+    """value quoting extracted into a module-level function without a leading underscore"""
+    return [
+        (H, "def dump_cookie(\n    key: str,", f'def quote_cookie_value(value: str) -> str:\n    if _cookie_no_quote_re.{kind}(value):\n        return value\n\n    data = _cookie_slash_re.sub(lambda m: _cookie_slash_map[m.group()], value.encode())\n    return f\'"{{data.decode("ascii")}}"\'\n\n\ndef dump_cookie(\n    key: str,'),
+        (H, QUOTE, "    value = quote_cookie_value(value)\n"),
+    ]
+
+
+def named_groups(value_expr: str) -> list:
+    """pair regex with named groups, finditer, groups read by name"""
+    return [
+        (S, "    ([^=;]*)\n    (?:\\s*=\\s*\n      (\n", "    (?P<name>[^=;]*)\n    (?:\\s*=\\s*\n      (?P<val>\n"),
+        (S, "    for ck, cv in _cookie_re.findall(cookie):\n        ck = ck.strip()\n        cv = cv.strip()\n", f"    for m in _cookie_re.finditer(cookie):\n        ck = m.group('name').strip()\n        cv = {value_expr}.strip()\n"),
+    ]
+
+
+def join_star(order: str) -> list:
+    """the pair is not in the list; it is prepended in the join"""
+    return [(H, PAIR, "    buf = []\n"), (H, '    rv = "; ".join(buf)\n', f"""    pair = f"{{key.encode().decode('latin1')}}={{value}}"\n    rv = "; ".join([{order}])\n""")]
+
+
+def while_index(step: str) -> list:
+    """parser: captured pairs in a list, walked with an index"""
+    return [(S, "    for ck, cv in _cookie_re.findall(cookie):\n", f"    found = _cookie_re.findall(cookie)\n    i = 0\n\n    while i < len(found):\n        ck, cv = found[i]\n        i += {step}\n")]
+
+
 MUTANTS = [
     {"name": "range-typo-x1e", "expect": "R13.1", "edits": [(H, r'rb"[\x00-\x1f\",;\\\x7f-\xff]"', r'rb"[\x00-\x1e\",;\\\x7f-\xff]"')]},
     {"name": "semicolon-dropped", "expect": "R13.1", "edits": [(H, r'rb"[\x00-\x1f\",;\\\x7f-\xff]"', r'rb"[\x00-\x1f\",\\\x7f-\xff]"')]},
@@ -14,9 +281,70 @@ MUTANTS = [
     {"name": "path-safe-semicolon", "expect": "R13.5", "edits": [(H, """safe="%!$&'()*+,/:=@\"""", """safe="%!$&'()*+,/:;=@\"""")]},
     {"name": "unslash-regex-two-digit", "expect": "R13.2", "edits": [("sansio/http.py", r'rb"\\([0-3][0-7]{2}|.)"', r'rb"\\([0-7]{2}|.)"')]},
     {"name": "set-cookie-drops-samesite", "expect": "R13.6", "edits": [("sansio/response.py", "                samesite=samesite,\n                partitioned=partitioned,\n            ),\n        )\n\n    def delete_cookie", "                partitioned=partitioned,\n            ),\n        )\n\n    def delete_cookie")]},
+    # ---- defects on today's shape that the value-level rules must see ----
+    {"name": "falsy-attribute-dropped", "expect": "R13.5", "edits": [(H, "        if v is None or v is False:\n            continue\n", "        if not v:\n            continue\n")]},
+    {"name": "true-by-equality", "expect": "R13.5", "edits": [(H, "        if v is True:\n            buf.append(k)", "        if v == True:\n            buf.append(k)")]},
+    {"name": "join-without-space", "expect": "R13.5", "edits": [(H, '    rv = "; ".join(buf)', '    rv = ";".join(buf)')]},
+    {"name": "samesite-not-titled", "expect": "R13.5", "edits": [(H, "        samesite = samesite.title()\n", "        samesite = samesite.strip()\n")]},
+    {"name": "domain-not-idna", "expect": "R13.5", "edits": [(H, '.lstrip(".").encode("idna").decode("ascii")', '.lstrip(".")')]},
+    {"name": "partitioned-without-secure", "expect": "R13.5", "edits": [(H, "    if partitioned:\n        secure = True\n", "")]},
+    {"name": "escape-latin1-bytes", "expect": "R13.4", "edits": [(H, "lambda m: _cookie_slash_map[m.group()], value.encode()", 'lambda m: _cookie_slash_map[m.group()], value.encode("latin1", "replace")')]},
+    {"name": "quotes-forgotten", "expect": "R13.4", "edits": [(H, "        value = f'\"{value}\"'\n", "        value = f'{value}'\n")]},
+    {"name": "fast-path-polarity", "expect": "R13.3", "edits": [(H, "if not _cookie_no_quote_re.fullmatch(value):", "if _cookie_no_quote_re.fullmatch(value):")]},
+    {"name": "reader-strips-after-unescape", "expect": "R13.2", "edits": [(S, "        out.append((ck, cv))", "        out.append((ck, cv.strip()))")]},
+    {"name": "reader-no-length-check", "expect": "R13.2", "edits": [(S, "if len(cv) >= 2 and cv[0] == cv[-1] == '\"':", "if cv[:1] == cv[-1:] == '\"':")]},
+    {"name": "reader-latin1-bytes", "expect": "R13.2", "edits": [(S, "_cookie_unslash_replace, cv[1:-1].encode()", '_cookie_unslash_replace, cv[1:-1].encode("latin1", "replace")')]},
+    {"name": "reader-keeps-quotes", "expect": "R13.2", "edits": [(S, "_cookie_unslash_replace, cv[1:-1].encode()", "_cookie_unslash_replace, cv.encode()")]},
+    {"name": "callback-decimal", "expect": "R13.2", "edits": [(S, 'return int(v, 8).to_bytes(1, "big")', 'return int(v, 10).to_bytes(1, "big")')]},
+    {"name": "environ-parser-bypasses-sansio", "expect": "R13.6", "edits": [(H, "    return _sansio_http.parse_cookie(cookie=cookie, cls=cls)", "    return (cls or ds.MultiDict)([tuple(cookie.partition('='))[::2]] if cookie else [])")]},
+    {"name": "client-parses-whole-header", "expect": "R13.6", "edits": [(T, "        header, _, parameters_str = header.partition(\";\")\n", "        whole = header\n        header, _, parameters_str = header.partition(\";\")\n"), (T, "next(parse_cookie(header).items())", "next(parse_cookie(whole).items())")]},
+    # ---- the same property broken inside each neutral shape of TWINS ----
+    {"name": "comprehension-drops-falsy", "expect": "R13.5", "edits": comprehension("v")},
+    {"name": "accumulate-without-space", "expect": "R13.5", "edits": accumulate(";")},
+    {"name": "attrs-local-flags-crossed", "expect": "R13.5", "edits": attrs_local('        ["Secure", httponly],\n        ["HttpOnly", secure],')},
+    {"name": "quote-helper-polarity", "expect": "R13.3", "edits": quote_helper("found is None")},
+    {"name": "reader-helper-no-length-check", "expect": "R13.2", "edits": reader_helper("text[:1] != '\"' or text[-1:] != '\"'")},
+    {"name": "callback-chr-utf8", "expect": "R13.2", "edits": callback('chr(int(digits, 8)).encode("utf-8")')},
+    {"name": "client-split-at-last-semicolon", "expect": "R13.6", "edits": client_split('rsplit(";", 1)')},
+    {"name": "set-cookie-positional-crossed", "expect": "R13.6", "edits": set_cookie_positional("httponly, secure")},
+    {"name": "fresh-locals-raw-path-wired", "expect": "R13.5", "edits": fresh_locals("path")},
+    {"name": "dict-items-name-typo", "expect": "R13.5", "edits": dict_items("Max-age")},
+    {"name": "bool-first-drops-zero", "expect": "R13.5", "edits": bool_first("v")},
+    {"name": "filter-join-drops-zero", "expect": "R13.5", "edits": filter_join('(f"{k}={v}" if v else None)')},
+    {"name": "samesite-table-typo", "expect": "R13.5", "edits": samesite_table("none")},
+    {"name": "reader-generator-value-not-stripped", "expect": "R13.2", "edits": reader_generator("cv")},
+    {"name": "reader-add-before-unescape", "expect": "R13.2", "edits": reader_add(True)},
+    {"name": "callback-table-ascii-only", "expect": "R13.2", "edits": callback_table(128)},
+    {"name": "re-functions-match", "expect": "R13.3", "edits": re_functions("match")},
+    {"name": "public-helper-match", "expect": "R13.3", "edits": public_helper("match")},
+    {"name": "named-groups-absent-value-crashes", "expect": "R13.2", "edits": named_groups("m['val']")},
+    {"name": "join-star-pair-last", "expect": "R13.5", "edits": join_star("*buf, pair")},
+    {"name": "while-index-skips-every-second-pair", "expect": "R13.2", "edits": while_index("2")},
 ]
 TWINS = [
     {"name": "escape-more", "edits": [(H, r'rb"[\x00-\x1f\",;\\\x7f-\xff]"', r'rb"[\x00-\x1f\",;\\\x7f-\xff ]"'), (H, '*b",;", *range(0x7F, 256)', '*b",; ", *range(0x7F, 256)')]},
     {"name": "rename-regex", "edits": [(H, "_cookie_slash_re = re.compile", "_cookie_escape_re = re.compile"), (H, "value = _cookie_slash_re.sub(", "value = _cookie_escape_re.sub(")]},
     {"name": "narrower-fast-path", "edits": [(H, r"""[\w!#$%&'()*+\-./:<=>?@\[\]^`{|}~]*""", r"""[\w!#$%&'()*+\-./:<>?@\[\]^`{|}~]*""")]},
+    {"name": "comprehension", "edits": comprehension("v is not None and v is not False")},
+    {"name": "accumulate-string", "edits": accumulate("; ")},
+    {"name": "attrs-local-format", "edits": attrs_local('        ["Secure", secure],\n        ["HttpOnly", httponly],')},
+    {"name": "quote-helper-nested", "edits": quote_helper("found is not None")},
+    {"name": "reader-helper-comprehension", "edits": reader_helper("len(text) < 2 or text[0] != '\"' or text[-1] != '\"'")},
+    {"name": "callback-chr-latin1", "edits": callback('chr(int(digits, 8)).encode("latin1")')},
+    {"name": "client-split-once", "edits": client_split('split(";", 1)')},
+    {"name": "set-cookie-positional", "edits": set_cookie_positional("secure, httponly")},
+    {"name": "fresh-locals", "edits": fresh_locals("quoted_path")},
+    {"name": "dict-items", "edits": dict_items("Max-Age")},
+    {"name": "bool-first", "edits": bool_first("v is not None")},
+    {"name": "filter-join", "edits": filter_join('f"{k}={v}"')},
+    {"name": "samesite-table", "edits": samesite_table("None")},
+    {"name": "reader-generator", "edits": reader_generator("cv.strip()")},
+    {"name": "reader-add", "edits": reader_add(False)},
+    {"name": "callback-table", "edits": callback_table(256)},
+    {"name": "re-functions", "edits": re_functions("fullmatch")},
+    {"name": "public-helper", "edits": public_helper("fullmatch")},
+    {"name": "named-groups", "edits": named_groups("(m['val'] or '')")},
+    {"name": "join-star", "edits": join_star("pair, *buf")},
+    {"name": "while-index", "edits": while_index("1")},
+    {"name": "environ-parser-conditional-expression", "edits": [(H, ENVIRON, '    cookie = header.get("HTTP_COOKIE") if isinstance(header, dict) else header\n'), (H, "    return _sansio_http.parse_cookie(cookie=cookie, cls=cls)", "    parsed = _sansio_http.parse_cookie(cookie, cls)\n    return parsed")]},
 ]
